@@ -19,7 +19,7 @@ package shell
 
 // IntegratedRunner.Run as used by the exec builtin (interpreter internals assumed, see C13 / C20)
 //@ func (IntegratedRunner).Run
-//@ props C13 C20
+//@ props C13 C20 C09
 //@ modifies fsid
 //@ ensures [C20,result-names-the-command] err == nil ==> result0.Cmd == cmd
 // what the interpreter wrote into the two capture buffers is reported verbatim: Stdout / Stderr of the
